@@ -87,6 +87,35 @@ Fixpoint dec_ops (l : list value) : option (list op) :=
 
 Definition bad_case : value := VList [VStr "badcase"].
 
+(* which oracle entry does evaluating [$encode: spec] on obj need next? (used by the harness to
+   complete the tables with independently computed encodings) *)
+Fixpoint flatten_spec (v : value) : list string :=
+  match v with
+  | VStr s => [s]
+  | VList l => (fix go (l : list value) := match l with [] => [] | x :: r => flatten_spec x ++ go r end) l
+  | _ => []
+  end.
+
+Fixpoint first_missing (o : oracles) (obj : value) (ts : list string) : value :=
+  match ts with
+  | [] => VNull
+  | t :: r =>
+      let parts := split_colon t in
+      let cmd := hd "" parts in
+      if String.eqb cmd "sha256" && Nat.eqb (List.length parts) 1 then
+        match o_sha o (show obj) with
+        | Ok h => first_missing o (VStr h) r
+        | Err _ => VList [VStr "sha"; VStr (show obj)]
+        end
+      else if o_fmt o cmd && Nat.eqb (List.length parts) 1 then
+        match o_enc o cmd obj with
+        | Ok e => first_missing o (VStr e) r
+        | Err EOracle => VList [VStr "enc"; VStr cmd; obj]
+        | Err _ => VNull
+        end
+      else match encode_string o obj t with Ok x => first_missing o x r | Err _ => VNull end
+  end.
+
 (* merge a chain of layers one at a time: result after each layer, then evaluation of the final document *)
 Fixpoint chain_steps (acc : value) (layers : list value) : list value * res value :=
   match layers with
@@ -143,6 +172,8 @@ Definition run_case (c : value) : value :=
             end
         | _ => bad_case
         end
+      else if String.eqb opn "encq" then
+        match args with [t; obj; spec] => first_missing (oracles_of t) obj (flatten_spec spec) | _ => bad_case end
       else if String.eqb opn "show" then
         match args with [v] => VStr (show v) | _ => bad_case end
       else if String.eqb opn "b64" then
